@@ -311,7 +311,9 @@ def run(ctx):
         n += 1
         ctx.check(variants == {want}, "parser-error:%s" % stage, "a failure of %s (role %s) is reported as %s, expected %s" % (stage, role, sorted(map(str, variants)), want),
                   loc(bb), sample={"stage": stage, "error": want})
-    ctx.floor("stages/validators with an error mapping", n, 12)
+    # every part of the record has a failure that is attributed (however the stages and validators are cut into functions)
+    covered = {role for (stage, role) in emap}
+    ctx.floor("parts of the record with an attributed failure", len(covered & {"board", "derived", "castling", "ep", "half", "full"}), 6)
     # ------------------------------------------------------------------ dual notation
     ctx.rule("dual-notation")
     sb = f.need(FROM_STR)
